@@ -69,7 +69,7 @@ func propDefs() map[string]*PropDef {
 		},
 		DesignRef: "DESIGN.md section 5 C01",
 	}
-	travInc := append([]string{`/count`, `/every_child_pushed`, `/protocol/`}, safetyInc...)
+	travInc := append([]string{`/count`, `/order`, `/every_child_pushed`, `/protocol/`}, safetyInc...)
 	m["C02"] = &PropDef{
 		ID: "C02",
 		Funcs: append(append(seqFuncsOnly("all$1", travInc), seqFuncsOnly("backward$1", travInc)...),
@@ -77,7 +77,8 @@ func propDefs() map[string]*PropDef {
 		Floor: 150,
 		Assumptions: []string{
 			"SCOPE: clauses of C02 that one traversal step decides. For the stack-based traversals behind All and Backward (all$1, backward$1): whenever an inner node is expanded the stack grows by exactly the node's number of children - the loop over a node4/node16 covers every occupied slot, the loop over a node48 every byte with a slot index, the loop over a node256 every non-nil slot (every_child_pushed: exit obligation of each inner loop over a ghost copy of the stack height; the counting functions are the ones whose lemmas are proved by induction under C10); every popped leaf is delivered through restoreKey exactly when it is popped; the traversal faults nowhere, writes nothing, and stops calling yield once it returned false. A loop bound that skips a slot or a byte (the usual off-by-one: 255 instead of 256 with a byte-typed variable) fails every_child_pushed",
-			"NOT decided: that the children are pushed in the ORDER that makes the pops ascending/descending (it follows from the loop direction together with the sortedness clause of the class invariants proved under C10, but the per-position statement was not written), and the global statement (complete, duplicate-free, sorted over the whole tree), which needs the ordering part of the tree invariant (rung 2) and a sequence-valued ghost result",
+			"order, for node4 and node16: the j-th element pushed is the child in slot childrenLen-1-j (all$1) resp. slot j (backward$1) - with the strictly ascending key bytes of the class invariants (C10) the pops are ascending resp. descending by byte. For node48 and node256 the per-position statement (position = number of occupied bytes beyond) was not written; their loops run over the bytes in the matching direction",
+			"NOT decided: the global statement (complete, duplicate-free, sorted over the whole tree), which needs the ordering part of the tree invariant (rung 2) and a sequence-valued ghost result",
 		},
 		DesignRef: "DESIGN.md section 5 C02, section 12",
 	}
